@@ -286,6 +286,14 @@ def pattern_witness(t1, t2, limit=400):
         vals = [3, 200, (1 << w) - 7, 0, 1]
         if w in (32, 64):
             vals = [CE.f2b(w, 2.5), CE.f2b(w, -3.75), CE.f2b(w, 0.1), CE.f2b(w, 1e10), CE.f2b(w, 300.5)] + vals + [70000]
+            if len(ins) <= 2:
+                # the inputs at which add-a-half-and-truncate idioms leave the rounding function they stand for: the predecessor of one half and an odd integer of the last
+                # binade with a fractional bit, both signs; then the signed zero
+                mant = 23 if w == 32 else 52
+                half_pred = CE.f2b(w, 0.5) - 1
+                odd = CE.f2b(w, float((1 << mant) + 1))
+                sign = 1 << (w - 1)
+                vals += [half_pred, odd, half_pred | sign, odd | sign, sign]
         cands.append([v & ((1 << w) - 1) for v in vals])
     n = 0
     for combo in itertools.product(*cands):
@@ -300,6 +308,80 @@ def pattern_witness(t1, t2, limit=400):
         if a != b:
             return {tm.show(x): ('%#x' % v) for x, v in env.items()}, a, b
     return None
+
+
+def float_idioms(t):
+    """rewrites the portable spellings of two rounding functions (as GLM's pre-C++11 fallbacks write them) into the function they are, bottom-up over the term:
+
+      trunc   select(x < 0, -floor(-x), floor(x))                          ==  trunc(x)    exactly, for every float: floor is exact, -0.0 takes the floor(x) arm and stays
+                                                                               -0.0, x in (-1, 0) gives -(+0) = -0.0, NaN is not < 0 and floor(NaN) is NaN
+      round   select(|x| >= 1/2, select(x < 0, -r, r), x * 0)                ==  round(x)    exactly (half away from zero): f = floor(|x|) and |x| - f are exact (f and |x| are
+              with r = select(|x| - floor(|x|) >= 1/2, floor(|x|) + 1, floor(|x|))   multiples of ulp(|x|) and the difference is below 1), f + 1 is exact whenever a fraction
+                                                                               exists (|x| < 2^(p-1)); |x| < 1/2 and NaN fail the first test and x * 0 is the zero of x's
+                                                                               sign, or NaN; infinities have |x| - f = NaN, so r = f = inf.
+    Only these exact shapes are rewritten; any other spelling is left alone (and stays undecided rather than being guessed)."""
+    memo = {}
+
+    def is_c(x, v):
+        return x.op == 'const' and x.w in (32, 64) and tm.fval(x) == v and not (v == 0.0 and x.args[0] != 0)
+
+    def floor_of(x):
+        return x.args[1] if (x.op == 'fn' and x.args[0] == 'floor' and len(x.args) == 2) else None
+
+    def ge_half(c):
+        """the term a when c is  a >= 1/2  (either spelling)"""
+        if c.op != 'fcmp':
+            return None
+        pr, p_, q_ = c.args
+        if pr == 'ole' and is_c(p_, 0.5):
+            return q_
+        if pr == 'oge' and is_c(q_, 0.5):
+            return p_
+        return None
+
+    def lt_zero(c):
+        if c.op != 'fcmp':
+            return None
+        pr, p_, q_ = c.args
+        if pr == 'olt' and is_c(q_, 0.0):
+            return p_
+        if pr == 'ogt' and is_c(p_, 0.0):
+            return q_
+        return None
+
+    def rewrite(y):
+        if y.op != 'select':
+            return y
+        c, a, b = y.args
+        x = lt_zero(c)
+        if x is not None:
+            # trunc
+            fb = floor_of(b)
+            if fb is x and a.op == 'fneg':
+                fa = floor_of(a.args[0])
+                if fa is not None and fa.op == 'fneg' and fa.args[0] is x:
+                    return tm.fn('trunc', (x,), y.w)
+        ax = ge_half(c)
+        if ax is not None and ax.op == 'fabs' and b.op == 'fmul':
+            x = ax.args[0]
+            if ((b.args[0] is x and is_c(b.args[1], 0.0)) or (b.args[1] is x and is_c(b.args[0], 0.0))) and a.op == 'select' and lt_zero(a.args[0]) is x:
+                neg, r = a.args[1], a.args[2]
+                if neg.op == 'fneg' and neg.args[0] is r and r.op == 'select':
+                    d = ge_half(r.args[0])
+                    f = r.args[2]
+                    if d is not None and floor_of(f) is ax and d.op == 'fsub' and d.args[0] is ax and d.args[1] is f:
+                        up = r.args[1]
+                        if up.op == 'fadd' and ((up.args[0] is f and is_c(up.args[1], 1.0)) or (up.args[1] is f and is_c(up.args[0], 1.0))):
+                            return tm.fn('round', (x,), y.w)
+        return y
+    for x in tm.walk(t):
+        if not any(isinstance(a, tm.T) for a in x.args):
+            memo[x] = x
+            continue
+        na = tuple(memo[a] if isinstance(a, tm.T) else a for a in x.args)
+        y = x if all(p is q for p, q in zip(na, x.args)) else tm.make(x.op, na, x.w)
+        memo[x] = rewrite(y)
+    return memo[t]
 
 
 def signbit_select(t):
